@@ -344,23 +344,23 @@ class Universe:
         if tag == 'L':
             return self.leaf(int(s[1]), int(s[2]))
         if tag == 'T':
-            return tuple(self.obj(x) for x in s[1:])
+            return tuple([self.obj(x) for x in s[1:]])
         if tag == 'l':
             return [self.obj(x) for x in s[1:]]
         if tag == 'D':
             return {self.key(k): self.obj(v) for k, v in s[1:]}
         if tag == 'O':
-            return OrderedDict((self.key(k), self.obj(v)) for k, v in s[1:])
+            return OrderedDict([(self.key(k), self.obj(v)) for k, v in s[1:]])
         if tag == 'DD':
             f = self.optnat(s[1])
             return defaultdict(None if f is None else FACTORIES[f],
-                               ((self.key(k), self.obj(v)) for k, v in s[2:]))
+                               [(self.key(k), self.obj(v)) for k, v in s[2:]])
         if tag == 'Q':
-            return deque((self.obj(x) for x in s[2:]), maxlen=self.optnat(s[1]))
+            return deque([self.obj(x) for x in s[2:]], maxlen=self.optnat(s[1]))
         if tag == 'NT':
-            return NT_CLASSES[int(s[1])](*(self.obj(x) for x in s[2:]))
+            return NT_CLASSES[int(s[1])](*[self.obj(x) for x in s[2:]])
         if tag == 'SS':
-            return SS_CLASSES[int(s[1])](tuple(self.obj(x) for x in s[2:]))
+            return SS_CLASSES[int(s[1])](tuple([self.obj(x) for x in s[2:]]))
         if tag == 'U':
             return USER_CLASSES[int(s[1])](self.optkey(s[2]), [self.obj(x) for x in s[4:]], str(s[3]))
         raise ValueError(f'bad tree {s!r}')
@@ -376,26 +376,26 @@ class Universe:
             return A('N')
         t = type(x)
         if t is tuple:
-            return [A('T'), *(self.enc_obj(c) for c in x)]
+            return [A('T'), *[self.enc_obj(c) for c in x]]
         if t is list:
-            return [A('l'), *(self.enc_obj(c) for c in x)]
+            return [A('l'), *[self.enc_obj(c) for c in x]]
         if t is dict:
-            return [A('D'), *([self.enc_key(k), self.enc_obj(v)] for k, v in x.items())]
+            return [A('D'), *[[self.enc_key(k), self.enc_obj(v)] for k, v in x.items()]]
         if t is OrderedDict:
-            return [A('O'), *([self.enc_key(k), self.enc_obj(v)] for k, v in x.items())]
+            return [A('O'), *[[self.enc_key(k), self.enc_obj(v)] for k, v in x.items()]]
         if t is defaultdict:
             f = x.default_factory
             fi = A('N') if f is None else (FACTORIES.index(f) if f in FACTORIES else A('X'))
-            return [A('DD'), fi, *([self.enc_key(k), self.enc_obj(v)] for k, v in x.items())]
+            return [A('DD'), fi, *[[self.enc_key(k), self.enc_obj(v)] for k, v in x.items()]]
         if t is deque:
-            return [A('Q'), self.enc_optnat(x.maxlen), *(self.enc_obj(c) for c in x)]
+            return [A('Q'), self.enc_optnat(x.maxlen), *[self.enc_obj(c) for c in x]]
         if t in NT_CLASSES:
-            return [A('NT'), NT_CLASSES.index(t), *(self.enc_obj(c) for c in x)]
+            return [A('NT'), NT_CLASSES.index(t), *[self.enc_obj(c) for c in x]]
         if t in SS_CLASSES:
-            return [A('SS'), SS_CLASSES.index(t), *(self.enc_obj(c) for c in x)]
+            return [A('SS'), SS_CLASSES.index(t), *[self.enc_obj(c) for c in x]]
         if isinstance(x, UBase) and t in USER_CLASSES:
             return [A('U'), t.cls_id, self.enc_optkey(x.md), A(x.quirk),
-                    *(self.enc_obj(c) for c in x.children)]
+                    *[self.enc_obj(c) for c in x.children]]
         extra = self.extra_by_id.get(id(x))
         if extra is not None:
             return extra
